@@ -174,6 +174,7 @@ mod harnesses {
         let f = any_filter(2);
         let probe = any_filter(2);
         let had_probe = l.filters.contains(&probe);
+        let scope0 = l.scope;
         let op: u8 = kani::any();
         kani::assume(op < 3);
         match op {
@@ -191,6 +192,8 @@ mod harnesses {
             }
         }
         assert!(inv(&l), "matches_all_objects / matches_specific_services equal their definition");
+        assert!(l.scope == scope0 && l.conn_id == ConnectionId(0), "filter operations neither start nor stop the listener, nor change its owner");
+        kani::cover!(scope0.is_some());
         kani::cover!(op == 0 && l.matches_all_objects);
         kani::cover!(op == 1 && l.matches_specific_services && !l.filters.is_empty());
         std::mem::forget(l);
